@@ -202,6 +202,10 @@ def correspondence(ctx):
                 else:
                     g = sep.join("%s%s" % (o, v) for o, v in ops)
                 results["gitlab"] = lambda g=g, gl=gl: VR.from_gitlab_native(gl, g)
+                if sep == " ":
+                    # every comparator written as an item of its own (`== 1.0.0 >= 2.0.0`)
+                    g3 = " ".join("%s %s" % (o, v) if o else v for o, v in ops)
+                    results["gitlab-spaced-comparators"] = lambda g3=g3, gl=gl: VR.from_gitlab_native(gl, g3)
                 # the purl type is accepted in place of the GitLab name
                 results["gitlab-purl-name"] = lambda g=g, purl=purl: VR.from_gitlab_native(purl, g)
                 if purl == "composer":
